@@ -382,6 +382,7 @@ func BuildSidecarOutboundVirtualHosts(node *model.Proxy, push *model.PushContext
 			DNSCapture:      bool(node.Metadata.DNSCapture),
 			DNSAutoAllocate: bool(node.Metadata.DNSAutoAllocate),
 			AllowAny:        util.IsAllowAnyOutbound(node) || util.IsAllowAnyDynamicDNSOutbound(node),
+			IPMode:          node.GetIPMode(),
 			ListenerPort:    listenerPort,
 			Services:        services,
 			VirtualServices: virtualServices,
